@@ -730,6 +730,404 @@ def c16(ctx):
                         ctx.S(bad, op=op, variant=v, input=repr(s), impl=cl)
 RULES["C16"] = "distinct (mode, tld, address) triples passing basic_email_check; corpora of C01-C10, four modes, tld on/off, builds with and without EAV_EXTRA"
 
+
+# ===================================================================== histories (C13, C19)
+H_ADDRS = [b"a@b.com", b"a@x.test", b"a@[1.2.3.4]", "ж@почта.рф".encode(), b"a@\xff.com", b'"a b"@b.ru', b"a@b", b"bad"]
+H_MASKS = [760, 8, 2046, 0]
+IDN_RCS = [-100, -101, -102] + list(range(-209, -199)) + list(range(-314, -299)) + [1, 12345, -1]
+
+
+class HistGen:
+    """legal histories: `i` first; `e` only once a setup has succeeded since the last `i`; ends with `f`"""
+
+    def __init__(self, rng):
+        self.rng = rng
+
+    def random_history(self, n, addrs, inject=False):
+        ops = ["i"]
+        confirmed = False
+        rfc = 6531
+        for _ in range(n):
+            r = self.rng.random()
+            if r < 0.12:
+                rfc = self.rng.choice([822, 5321, 5322, 6531, 6531, 7, -1])
+                ops.append("r%d" % rfc)
+            elif r < 0.2:
+                ops.append("t%d" % self.rng.randint(0, 1))
+            elif r < 0.28:
+                ops.append("k%d" % self.rng.choice(H_MASKS))
+            elif r < 0.42:
+                ops.append("s")
+                if rfc in (822, 5321, 5322, 6531):
+                    confirmed = True
+            elif r < 0.5:
+                ops.append("m")
+            elif r < 0.55:
+                ops += ["f", "i"]
+                confirmed = False
+                rfc = 6531
+            elif inject and r < 0.65:
+                ops.append(self.rng.choice(["x0", "x%d,%d" % (self.rng.choice(IDN_RCS), self.rng.randint(0, 1))]))
+            elif confirmed:
+                ops.append("e" + hx(self.rng.choice(addrs)))
+            else:
+                ops.append("s")
+                if rfc in (822, 5321, 5322, 6531):
+                    confirmed = True
+        ops.append("f")
+        return ";".join(ops)
+
+    def exhaustive(self, depth, pool):
+        """all sequences of `depth` pool ops (filtered for legality) after `i;s`"""
+        import itertools
+        out = []
+        for seq in itertools.product(pool, repeat=depth):
+            ops = ["i", "s"]
+            confirmed, rfc, ok = True, 6531, True
+            for o in seq:
+                if o == "fi":
+                    ops += ["f", "i"]; confirmed = False; rfc = 6531
+                    continue
+                if o[0] == "r":
+                    rfc = int(o[1:])
+                if o == "s" and rfc in (822, 5321, 5322, 6531):
+                    confirmed = True
+                if o[0] == "e" and not confirmed:
+                    ok = False; break
+                ops.append(o)
+            if ok:
+                out.append(";".join(ops + ["f"]))
+        return out
+
+
+def interpret_history(script):
+    """abstract state (confirmed mode, tld, mask) at each `e`, and whether a failed setup intervened before each `m`"""
+    mode_confirmed, rfc, tld, mask = None, 6531, 1, 760
+    out = []
+    inj = None
+    last = None        # what errstr should describe: ("e", idx) or ("setupfail",) or None
+    for i, o in enumerate(script.split(";")):
+        if o == "i":
+            mode_confirmed, rfc, tld, mask, last = None, 6531, 1, 760, ("init",)
+        elif o[0] == "r": rfc = int(o[1:])
+        elif o[0] == "t": tld = int(o[1:])
+        elif o[0] == "k": mask = int(o[1:])
+        elif o == "s":
+            if rfc in (822, 5321, 5322, 6531): mode_confirmed = rfc
+            else: last = ("setupfail",)
+        elif o[0] == "x":
+            inj = None if o == "x0" else o[1:]
+        elif o[0] == "e":
+            out.append((i, "e", (mode_confirmed, tld, mask, o[1:], inj)))
+            last = ("e", i)
+        elif o == "m":
+            out.append((i, "m", last))
+    return out
+
+
+def check_histories(ctx, name, scripts, variant="default"):
+    ops = ["H " + sc for sc in scripts]
+    c = ctx.K(name, variant, ops, nontrivial=lambda op, ln: True)
+    # fresh-object outcomes for every (mode, tld, mask, addr) met without injection
+    need = {}
+    for sc in scripts:
+        for i, kind, st in interpret_history(sc):
+            if kind == "e" and st[4] is None:
+                need[st[:4]] = None
+    keys = sorted(need, key=str)
+    fresh = ctx.K(name + "-fresh", variant, ["P %d %d %d %s" % k for k in keys], nontrivial=lambda op, ln: True)
+    for k, ln in zip(keys, fresh):
+        need[k] = ln[2:]
+    for sc, cl in zip(scripts, c):
+        parts = cl[2:].split(";")
+        outs = {}
+        for i, kind, st in interpret_history(sc):
+            got = parts[i] if i < len(parts) else "?"
+            if kind == "e":
+                outs[i] = got
+                if st[4] is None:
+                    if got[1:] != need[st[:4]]:
+                        ctx.S("eav_is_email outcome depends on the history of the eav_t, not only on (confirmed mode, tld_check, allow_tld, address)",
+                              op="H " + sc, step=i, got=got, fresh=need[st[:4]])
+                else:
+                    rc = st[4].split(",")[0]
+                    f = got.split(" ")
+                    will_convert = st[0] == 6531 and f[3] not in ("-3", "-16", "-5") and not (-15 <= int(f[3]) <= -4) and int(f[3]) not in (-24, -25) and f[5] != "100" and f[5] != "010"
+                    if f[3] == "-2" and not (f[0] == "e0" and f[1] == "2" and f[2] == "idn:#" + rc and f[4] == rc and f[5] == "000"):
+                        ctx.S("IDN failure not contained: wrong return/code/message/flags", op="H " + sc, step=i, got=got)
+                    if st[0] == 6531 and f[3] not in ("-2",) and f[5] == "001":
+                        ctx.S("injected IDN failure, yet the domain was treated as valid", op="H " + sc, step=i, got=got)
+            elif kind == "m":
+                if st and st[0] == "e" and got[1:] != outs[st[1]].split(" ")[2]:
+                    ctx.S("eav_errstr does not describe the most recent eav_is_email call", op="H " + sc, step=i, got=got, last=outs[st[1]])
+                if st and st[0] == "setupfail" and got != "mm1":
+                    ctx.S("eav_errstr after a failed eav_setup does not report the invalid RFC", op="H " + sc, step=i, got=got)
+    return c
+
+
+def c13(ctx):
+    hg = HistGen(ctx.rng)
+    pool = ["r822", "r6531", "r7", "t0", "k8", "s", "m", "fi"] + ["e" + hx(a) for a in H_ADDRS[:5]]
+    scripts = hg.exhaustive(3 if ctx.tier == "quick" else 4, pool)
+    if ctx.tier != "quick":
+        scripts = scripts[:: 2]
+    for n in ([10, 50, 200] if ctx.tier == "quick" else [10, 50, 200, 200, 1000]):
+        for _ in range(40 if ctx.tier == "quick" else 400):
+            scripts.append(hg.random_history(n, H_ADDRS))
+    scripts = list(dict.fromkeys(scripts))
+    check_histories(ctx, "history", scripts)
+RULES["C13"] = "distinct legal call histories (init first, is_email only after a successful setup, free last): exhaustive sequences of 3 (4 thorough) operations from a pool of 13 after init+setup, random histories of length 10-200 (1000 thorough); every eav_is_email compared with a fresh object given the same settings; LeakSanitizer at exit"
+
+
+def c19(ctx):
+    hg = HistGen(ctx.rng)
+    scripts = []
+    dom = [b"a@b.com", "ж@почта.рф".encode(), b"a@x.test"]
+    for rc in IDN_RCS:
+        for buf in (0, 1):
+            for a in dom:
+                # single fault at each position of a run of validations
+                for n, pos in ((1, 0), (3, 0), (3, 1), (3, 2), (6, 3)):
+                    ops = ["i", "s"]
+                    for k in range(n):
+                        if k == pos:
+                            ops += ["x%d,%d" % (rc, buf), "e" + hx(a), "m", "x0"]
+                        else:
+                            ops += ["e" + hx(a), "m"]
+                    scripts.append(";".join(ops + ["f"]))
+    for n in ([10, 50] if ctx.tier == "quick" else [10, 50, 50, 200]):
+        for _ in range(60 if ctx.tier == "quick" else 600):
+            scripts.append(hg.random_history(n, H_ADDRS, inject=True))
+    scripts = list(dict.fromkeys(scripts))
+    check_histories(ctx, "idnfault", scripts)
+RULES["C19"] = "distinct histories with injected IDN failures: every libidn2 error code (and unknown codes) x with/without an output buffer x fault position in runs of 1-6 validations, random multi-fault histories of length 10-50 (200 thorough); LeakSanitizer at exit"
+
+
+# ===================================================================== C17
+def unquoted_has(s, chars):
+    """does `s` contain one of `chars` outside a quoted string (quotes toggled by unescaped DQUOTE)"""
+    q = esc = False
+    for b in s:
+        if q:
+            if esc: esc = False
+            elif b == 0x5c: esc = True
+            elif b == 0x22: q = False
+        else:
+            if b == 0x22: q = True
+            elif b in chars: return True
+    return False
+
+
+def c17(ctx):
+    variants = VARIANTS_OF["C17"][ctx.tier]
+    locs = [l for l in dict.fromkeys(gen.local_strings("quick", ctx.rng, utf8=True)[:: (4 if ctx.tier == "quick" else 1)]) if 0 not in l]
+    rfc20 = b"#^`{|}~"
+    locs += [b"a" + bytes([c]) + b"b" for c in rfc20] + [b'"' + bytes([c]) + b'"' for c in rfc20] + [b'"x".' + bytes([c]) for c in rfc20] + \
+            [bytes([c]) for c in rfc20] + ["é".encode() + bytes([c]) for c in rfc20] + [b'"\\' + bytes([c]) + b'"' for c in rfc20]
+    locs = list(dict.fromkeys(locs))
+    doms = [d for d in dict.fromkeys(gen.domain_strings("quick", ctx.rng)[:: (6 if ctx.tier == "quick" else 1)]) if 0 not in d]
+    mails = [e for e in dict.fromkeys(gen.email_strings("quick", ctx.rng)[:: (5 if ctx.tier == "quick" else 1)]) if 0 not in e]
+    res = {}
+    for v in variants:
+        r = {}
+        for m in MODES:
+            r[("L", m)] = ctx.K("local%d" % m, v, ["L %d %s %s" % (m, hx(l), hx(gen.AT)) for l in locs], nontrivial=lambda op, ln: not ln.endswith(" -4"))
+        r["D"] = ctx.K("domain", v, ["D %s 00" % hx(d) for d in doms])
+        for m in MODES:
+            for t in (0, 1):
+                r[("E", m, t)] = ctx.K("email%d" % m, v, ["E %d %d %s" % (m, t, hx(e)) for e in mails])
+        res[v] = r
+    base = res["default"]
+    sp_us = ctx.spec(["sD 1 %s" % hx(d) for d in doms])
+    sp_u8 = ctx.spec(["sU %s" % hx(l) for l in locs])
+    for v in variants:
+        if v == "default":
+            continue
+        has20, has5322, hasus = "rfc20" in v or v == "all3", "rfc5322" in v or v == "all3", "underscore" in v or v == "all3"
+        r = res[v]
+        # modes 822 / 5321 / 5322 local parts: untouched by every option
+        for m in (822, 5321, 5322):
+            for l, a, b in zip(locs, base[("L", m)], r[("L", m)]):
+                if a != b:
+                    ctx.S("a build option changes a local-part decision of mode %d" % m, op="L %d %s %s" % (m, hx(l), hx(gen.AT)), variant=v, default=a, option=b)
+        for i, l in enumerate(locs):
+            a, b = base[("L", 6531)][i], r[("L", 6531)][i]
+            acc_a, acc_b = a == "L 0", b == "L 0"
+            op = "L 6531 %s %s" % (hx(l), hx(gen.AT))
+            pure = all(x < 128 for x in l)
+            if has5322:
+                # pure ASCII: as mode 5322 (of the same build) does, then minus the RFC 20 characters if that option is on too
+                want = r[("L", 5322)][i] == "L 0"
+                if has20:
+                    want = want and not unquoted_has(l, rfc20)
+                if pure and acc_b != want:
+                    ctx.S("RFC6531_FOLLOW_RFC5322: mode 6531 does not judge a pure-ASCII local part as mode 5322 does", op=op, variant=v, m6531=b, m5322=r[("L", 5322)][i])
+                if acc_b and sp_u8[i] != "sU 1":
+                    ctx.S("RFC6531_FOLLOW_RFC5322 build accepts a local part that is not well-formed UTF-8", op=op, variant=v, impl=b)
+            elif has20:
+                want = acc_a and not unquoted_has(l, rfc20)
+                if acc_b != want:
+                    ctx.S("RFC6531_FOLLOW_RFC20 does not reject exactly the local parts with # ^ ` { | } ~ outside quotes", op=op, variant=v, default=a, option=b)
+            elif a != b:
+                ctx.S("LABELS_ALLOW_UNDERSCORE changes a mode-6531 local-part decision", op=op, variant=v, default=a, option=b)
+        for i, d in enumerate(doms):
+            a, b = base["D"][i], r["D"][i]
+            if hasus:
+                if (b == "D 0") != (sp_us[i] == "sD 1"):
+                    ctx.S("LABELS_ALLOW_UNDERSCORE does not accept exactly the host names valid with '_' as a letter", op="D %s 00" % hx(d), variant=v, impl=b)
+            elif a != b:
+                ctx.S("a local-part option changes a host-name decision", op="D %s 00" % hx(d), variant=v, default=a, option=b)
+        for m in (822, 5321, 5322):
+            for t in (0, 1):
+                for e, a, b in zip(mails, base[("E", m, t)], r[("E", m, t)]):
+                    if a != b and not (hasus and b"_" in e):
+                        ctx.S("a build option changes an address decision of mode %d" % m, op="E %d %d %s" % (m, t, hx(e)), variant=v, default=a, option=b)
+RULES["C17"] = "distinct (build, op) pairs; each non-default build compared op by op with the default build and with the model carrying the same options; local parts (incl. every RFC 20 character in atom, quoted, escaped position), host names, whole addresses, four modes"
+
+
+# ===================================================================== C18
+def c18(ctx):
+    bes = ["be:idn2", "be:idn", "be:idnkit"]
+    mails = diag_corpus(ctx)[:: (2 if ctx.tier == "quick" else 1)]
+    hg = HistGen(ctx.rng)
+    scripts = hg.exhaustive(2 if ctx.tier == "quick" else 3, ["r822", "r6531", "r7", "s", "m", "fi", "t0"] + ["e" + hx(a) for a in H_ADDRS[:4]])
+    for n in (10, 50, 200):
+        for _ in range(30 if ctx.tier == "quick" else 300):
+            scripts.append(hg.random_history(n, H_ADDRS, inject=True))
+    scripts = list(dict.fromkeys(scripts))
+    out = {}
+    for be in bes:
+        r = {}
+        for m in MODES:
+            for t in (0, 1):
+                r[(m, t)] = ctx.K("email%d" % m, be, ["P %d %d %d %s" % (m, t, 760, hx(e)) for e in mails], nontrivial=lambda op, ln: fields(ln)[2] not in ("3", "16"))
+        r["H"] = ctx.K("history", be, ["H " + sc for sc in scripts], nontrivial=lambda op, ln: True)
+        out[be] = r
+    for be in bes[1:]:
+        for key in out[be]:
+            for i, (a, b) in enumerate(zip(out["be:idn2"][key], out[be][key])):
+                if key == "H":
+                    b0 = b.rsplit(";R", 1)[0]
+                    if a != b0:
+                        ctx.S("back end %s: a call history gives different outcomes than with libidn2" % be[3:], op="H " + scripts[i], variant=be, idn2=a, other=b0)
+                elif a != b:
+                    ctx.S("back end %s decides an address differently than the libidn2 build" % be[3:], op="P %d %d 760 %s" % (key[0], key[1], hx(mails[i])), variant=be, idn2=a, other=b)
+    # idnkit: every context created by eav_setup is destroyed exactly once (scripts end with eav_free)
+    for sc, ln in zip(scripts, out["be:idnkit"]["H"]):
+        m = re.search(r";R(\d+),(\d+),(-?\d+),(\d+)$", ln)
+        if not m:
+            ctx.S("idnkit harness printed no resource counters", op="H " + sc, variant="be:idnkit", impl=ln)
+            continue
+        created, destroyed, live, bad = map(int, m.groups())
+        if live != 0 or bad != 0 or created != destroyed:
+            ctx.S("idnkit: idn_resconf contexts created %d, destroyed %d, live %d, bad destroys %d after eav_free" % (created, destroyed, live, bad),
+                  op="H " + sc, variant="be:idnkit", impl=ln)
+RULES["C18"] = "distinct (back end, op) pairs; partial/idn2, partial/idn and partial/idnkit compiled against shim headers onto one converter; address corpus of C15/C16 in four modes and tld on/off, call histories (with injected IDN failures); idnkit create/destroy counters"
+VARIANTS_OF["C18"] = {"quick": ["be:idn2", "be:idn", "be:idnkit"], "thorough": ["be:idn2", "be:idn", "be:idnkit"]}
+TRUSTED_EXTRA["C18"] = ["shims/idna.h, shims/idn/api.h, shims/shim_impl.c: stand-ins for GNU libidn and idnkit (neither is installed), forwarding to libidn2"]
+
+
+# ===================================================================== C10
+def idn_domains(ctx):
+    rng = ctx.rng
+    scripts = {
+        "cyr": "абвгдежзиклмнопрстуфхцчшщыэюя", "grk": "αβγδεζηθικλμνξοπρστυφχψω", "han": "中文网络在线微博商标时尚",
+        "hng": "삼성한국테스트", "ara": "ابتثجحخدذرزسشصضطظعغفقكلمنهوي", "heb": "אבגדהוזחטיכלמנסעפצקרשת", "dev": "कखगघचछजझटठडढणतथदधनपफबभमयरलवशषसह",
+        "lat": "àáâãäåæçèéêëìíîïñòóôõöøùúûüýÿ", "asc": "abcxyz0189",
+    }
+    tbl = table_names(ctx)
+    out = []
+    for u in gen.IDN_SAMPLES:
+        out.append(u.encode())
+    # every IDN TLD of the table, via its U-label (decoded from the A-label by python's punycode)
+    for name, _, _ in tbl:
+        if name.startswith(b"xn--"):
+            try:
+                u = name[4:].decode("ascii").encode("ascii").decode("punycode")
+            except Exception:
+                continue
+            out.append(("пример." + u).encode())
+            out.append(("example." + u).encode())
+            out.append((u + "." + u).encode())
+    n = 300 if ctx.tier == "quick" else 5000
+    keys = sorted(scripts)
+    for _ in range(n):
+        labs = []
+        for _ in range(rng.randint(1, 4)):
+            sc = scripts[rng.choice(keys)]
+            lab = "".join(rng.choice(sc) for _ in range(rng.randint(1, 12)))
+            if rng.random() < 0.2:
+                lab += rng.choice(["-", "1", "a", "-x"])
+            labs.append(lab)
+        out.append(".".join(labs).encode())
+    # malformed: invalid UTF-8, disallowed code points, hyphen rules, long labels
+    out += [b"\xff.com", b"a\xc3.com", "a‍.com".encode(), "☃☃.com".encode(), "I♥NY.de".encode(), "xn--a-.com".encode(), b"ab--cd.com", b"-a.com", b"a-.com",
+            ("ж" * 64 + ".рф").encode(), ("é" * 59 + ".com").encode(), ("é" * 62 + ".com").encode(), "á.com".encode(), "ǅ.com".encode(), "Ａ.com".encode()]
+    return list(dict.fromkeys(o for o in out if 0 not in o and b"@" not in o))
+
+
+def c10(ctx):
+    us = idn_domains(ctx)
+    for t in (0, 1):
+        ops = ["E 6531 %d %s" % (t, hx(b"a@" + u)) for u in us]
+        c, l = ctx.run("ulabel", "default", ops)
+        ctx.evals += len(ops)
+        for op, a, b in zip(ops, c, l):
+            if a != b:
+                ctx.k_fail.append(dict(stream="ulabel", variant="default", op=op, impl=a, model=b))
+            ctx.nontrivial.add(op)
+        lean_in = open(os.path.join(ctx.scr.dir, "ulabel_default.leanin")).read().split("\n")[1:]
+        pairs = []
+        stats = collections.Counter()
+        for u, cl, li in zip(us, c, lean_in):
+            m = re.search(r" @ (-?\d+) (\S+)", li)
+            if not m:
+                stats["no-conversion"] += 1
+                continue
+            if m.group(1) != "0":
+                stats["idn-error"] += 1
+                # rejected with the IDN error
+                if fields(cl)[1] != "-2":
+                    ctx.S("IDN conversion failed but the address was not rejected with the IDN error", op="E 6531 %d %s" % (t, hx(b"a@" + u)), impl=cl)
+                continue
+            a = bytes.fromhex(m.group(2)) if m.group(2) != "-" else b""
+            stats["converted"] += 1
+            pairs.append((u, a, cl))
+        aops = ["E 6531 %d %s" % (t, hx(b"a@" + a)) for _, a, _ in pairs]
+        ca = ctx.K("alabel6531", "default", aops, nontrivial=lambda op, ln: True)
+        asc = {m: ctx.K("alabel%d" % m, "default", ["E %d %d %s" % (m, t, hx(b"a@" + a)) for _, a, _ in pairs]) for m in (822, 5321, 5322)}
+        lean_in2 = open(os.path.join(ctx.scr.dir, "alabel6531_default.leanin")).read().split("\n")[1:]
+        for i, (u, a, cu) in enumerate(pairs):
+            fu, fa = fields(cu), fields(ca[i])
+            m2 = re.search(r" @ (-?\d+) (\S+)", lean_in2[i])
+            # hypothesis H_same (validated, not proved): the converter is idempotent on its own output
+            if not (m2 and m2.group(1) == "0" and bytes.fromhex(m2.group(2)) == a):
+                stats["alabel-not-idempotent"] += 1
+                continue
+            stats["H_same-validated"] += 1
+            if fu[1:4] != fa[1:4]:
+                ctx.S("mode 6531 treats the U-label and A-label spellings of a domain differently", op="E 6531 %d %s" % (t, hx(b"a@" + u)), ulabel=cu, alabel=ca[i], a=repr(a))
+            for m in (822, 5321, 5322):
+                fm = fields(asc[m][i])
+                if fm[1] != fa[1]:
+                    ctx.S("mode %d gives the A-label spelling a different decision/class than mode 6531" % m, op="E %d %d %s" % (m, t, hx(b"a@" + a)), ascii_mode=asc[m][i], m6531=ca[i])
+        # all-ASCII domains: 6531 accepts only what the ASCII modes accept, same class; otherwise an IDN error
+        ascd = [d for d in dict.fromkeys(gen.domain_strings("quick", ctx.rng)[:: (20 if ctx.tier == "quick" else 2)]) if 0 not in d and all(x < 128 for x in d) and b"@" not in d and not d.startswith(b"[")]
+        tbl = table_names(ctx)
+        ascd += [b"x." + r[0] for r in tbl[:: (10 if ctx.tier == "quick" else 1)]] + [b"X." + r[0].upper() for r in tbl[::50]]
+        c6 = ctx.K("ascii6531", "default", ["E 6531 %d %s" % (t, hx(b"a@" + d)) for d in ascd])
+        c5 = ctx.K("ascii5321", "default", ["E 5321 %d %s" % (t, hx(b"a@" + d)) for d in ascd])
+        for d, a6, a5 in zip(ascd, c6, c5):
+            f6, f5 = fields(a6), fields(a5)
+            acc6, acc5 = int(f6[1]) >= 0, int(f5[1]) >= 0
+            if acc6 and (not acc5 or f6[1] != f5[1]):
+                ctx.S("mode 6531 accepts an all-ASCII domain the ASCII modes reject (or with another class)", op="E 6531 %d %s" % (t, hx(b"a@" + d)), m6531=a6, m5321=a5)
+            if acc5 and not acc6 and f6[1] != "-2":
+                ctx.S("mode 6531 rejects an all-ASCII domain the ASCII modes accept, and not with an IDN error", op="E 6531 %d %s" % (t, hx(b"a@" + d)), m6531=a6, m5321=a5)
+        ctx.extra_cov.setdefault("idn_oracle", {}).update({"tld=%d %s" % (t, k): v for k, v in stats.items()})
+RULES["C10"] = "distinct domains: every IDN TLD of the table in U- and A-form, 1-4 labels from eight scripts, malformed UTF-8 / disallowed code points / hyphen violations / long labels, all-ASCII domains of the C04/C07 generators; the A-label is the one libidn2 produced on this run"
+TRUSTED_EXTRA["C10"] = ["libidn2's IDNA2008 conformance is an oracle: hypotheses H_same (conversion is idempotent on A-labels) and H_ascii (ASCII domains convert to their lower-case form) are validated on every recorded conversion, not proved"]
+
 PROPS = collections.OrderedDict()
 PROPS["C01"] = c01
 PROPS["C02"] = c02
@@ -739,9 +1137,14 @@ PROPS["C05"] = c05
 PROPS["C07"] = c07
 PROPS["C08"] = c08
 PROPS["C09"] = c09
+PROPS["C10"] = c10
 PROPS["C12"] = c12
+PROPS["C13"] = c13
 PROPS["C15"] = c15
 PROPS["C16"] = c16
+PROPS["C17"] = c17
+PROPS["C18"] = c18
+PROPS["C19"] = c19
 
 
 def replay(ctx, path):
